@@ -28,17 +28,18 @@ def handleSeg (j : Json) : Except String Json := do
   return Json.mkObj [("shape", Json.arr ((segShape n sh tz).map natJson).toArray),
                      ("chunks", Json.arr ((segChunks sh tz).map natJson).toArray)]
 
-def handle (j : Json) : Except String Json := do
-  if let .ok (Json.str "seg") := j.getObjVal? "op" then return ← handleSeg j
+def parseDs (j : Json) : Except String Dataset := do
   let ndim ← (← j.getObjVal? "ndim").getNat?
   let frames ← (← (← j.getObjVal? "frames").getArr?).toList.mapM
     (fun fr => do (← fr.getArr?).toList.mapM getRegion)
   let table ← (← (← j.getObjVal? "table").getArr?).toList.mapM getRow
-  let ds : Dataset := ⟨ndim, frames, table⟩
+  return ⟨ndim, frames, table⟩
+
+def render (ds : Dataset) (r : Outcome Out) : Json :=
   let cons := Json.arr #[Json.bool (consistentB ds), Json.bool (wfB ds), Json.bool (sortedB ds)]
-  match fromCtc ⟨ndim, frames, table⟩ with
+  match r with
   | .ok o =>
-    return Json.mkObj [("consistent", cons), ("ok", Json.mkObj [
+    Json.mkObj [("consistent", cons), ("ok", Json.mkObj [
       ("ids", Json.arr (o.nodeIds.map natJson).toArray),
       ("tracklet", Json.arr (o.tracklet.map intJson).toArray),
       ("t", Json.arr (o.ts.map natJson).toArray),
@@ -46,8 +47,20 @@ def handle (j : Json) : Except String Json := do
           Json.arr #[Json.str c.1, Json.arr (c.2.map Json.str).toArray])).toArray),
       ("edges", Json.arr (o.edges.map (fun e => Json.arr #[natJson e.1, natJson e.2])).toArray),
       ("axes", Json.arr (o.axes.map (fun a => Json.arr #[Json.str a.1, Json.str a.2])).toArray)])]
-  | .valueError => return Json.mkObj [("consistent", cons), ("exc", "ValueError")]
-  | .keyError => return Json.mkObj [("consistent", cons), ("exc", "KeyError")]
-  | .indexError => return Json.mkObj [("consistent", cons), ("exc", "IndexError")]
+  | .valueError => Json.mkObj [("consistent", cons), ("exc", "ValueError")]
+  | .keyError => Json.mkObj [("consistent", cons), ("exc", "KeyError")]
+  | .indexError => Json.mkObj [("consistent", cons), ("exc", "IndexError")]
+
+/-- {"op":"seq","datasets":[dataset,…]} → {"steps":[answer,…]} : a sequence of conversions in one
+process (`convertSeq`) -/
+def handleSeq (j : Json) : Except String Json := do
+  let dss ← (← (← j.getObjVal? "datasets").getArr?).toList.mapM parseDs
+  return Json.mkObj [("steps", Json.arr ((dss.zip (convertSeq dss)).map (fun p => render p.1 p.2)).toArray)]
+
+def handle (j : Json) : Except String Json := do
+  if let .ok (Json.str "seg") := j.getObjVal? "op" then return ← handleSeg j
+  if let .ok (Json.str "seq") := j.getObjVal? "op" then return ← handleSeq j
+  let ds ← parseDs j
+  return render ds (fromCtc ds)
 
 def main : IO Unit := Proto.run handle
